@@ -159,9 +159,59 @@ func RouteIsolationCatalogue() *Request {
 			f.Services = append(f.Services, svc)
 		}
 	}
+	// routes over SHARED request messages (family "shared-message", c17_families.go): services named Sh*
+	f.Messages = append(f.Messages, SharedMessageMessages(pkg)...)
+	f.Services = append(f.Services, SharedMessageServices(pkg)...)
 	r := OneFile(id, pkg, f)
 	r.Tags = []string{"runtime", "headers", "server-only"}
 	return r
+}
+
+// SharedMessageMessages / SharedMessageServices: RPCs that take the SAME request message with different
+// path-variable sets, verbs and (for GET/DELETE, where every field must be URL-bound) query parameters:
+//
+//	Item (project_id, id, name, tag?query)     ShItems : POST /projects/{project_id}/items        {project_id}
+//	                                                     PUT  /projects/{project_id}/items/{id}   {project_id,id}
+//	                                                     PATCH /items/{id}                        {id}
+//	                                                     PUT  /swap/{id}/{project_id}             {id,project_id} (same set, other order)
+//	                                                     POST /touch                              {}
+//	                                           ShAdmin : POST /import/{id}/{name}                 {id,name}  (another SERVICE, same message)
+//	Ref  (org, id, rev!query int32, q?query)   ShRefs  : GET  /orgs/{org}/refs/{id}               {org,id}
+//	                                                     DELETE /orgs/{org}/refs/{id}             {org,id}
+//	                                                     PUT  /refs/{id}                          {id}
+//	                                                     POST /orgs/{org}/move                    {org}
+//	                                                     PATCH /refs                              {}
+//
+// What a route binds follows from its own template; the family calls 2-3 routes of one message in every
+// order, each order in a process of its own.
+func SharedMessageMessages(pkg string) []*Message {
+	return []*Message{
+		M("Item", F("project_id", 1, "string"), F("id", 2, "string"), F("name", 3, "string"), F("tag", 4, "string", Query("tag", false))),
+		M("Ref", F("org", 1, "string"), F("id", 2, "string"), F("rev", 3, "int32", Query("rev", true)), F("q", 4, "string", Query("q", false))),
+	}
+}
+
+func SharedMessageServices(pkg string) []*Service {
+	item, ref, resp := pkg+".Item", pkg+".Ref", pkg+".Resp"
+	return []*Service{
+		Svc("ShItems", "/shi",
+			RPC("ShCreateItem", item, resp, "POST", "/projects/{project_id}/items"),
+			RPC("ShUpdateItem", item, resp, "PUT", "/projects/{project_id}/items/{id}"),
+			RPC("ShRenameItem", item, resp, "PATCH", "/items/{id}"),
+			RPC("ShSwapItem", item, resp, "PUT", "/swap/{id}/{project_id}"),
+			RPC("ShTouchItem", item, resp, "POST", "/touch"),
+		),
+		Svc("ShAdmin", "/sha",
+			RPC("ShImportItem", item, resp, "POST", "/import/{id}/{name}"),
+		),
+		Svc("ShRefs", "/shr",
+			RPC("ShGetRef", ref, resp, "GET", "/orgs/{org}/refs/{id}"),
+			RPC("ShDropRef", ref, resp, "DELETE", "/orgs/{org}/refs/{id}"),
+			RPC("ShPutRef", ref, resp, "PUT", "/refs/{id}"),
+			RPC("ShMoveRef", ref, resp, "POST", "/orgs/{org}/move"),
+			RPC("ShPatchRef", ref, resp, "PATCH", "/refs"),
+		),
+	}
 }
 
 // ClientHistoryCatalogue: client + server package for the call-sequence family of C17. Body routes carry
